@@ -213,8 +213,10 @@ class InternalCompiler(Compiler):
             and expr.args[0].name == sym.name
         ):
             iret = qc[sym.name]
-            qc.x(iret)
-            return iret
+            # in place only if the qubit holds no other symbol (t = a shares a's qubit)
+            if list(qc.qubit_map.values()).count(iret) == 1:
+                qc.x(iret)
+                return iret
 
         # 1. Compile the expression
         eret = self.compile_expr(qc, expr.args[0])
